@@ -52,7 +52,11 @@ REG.add(Contract(
     ensures=[P(['C19'], 'one-token-per-character', 'len(result) == len(text.Q)'),
              P(['C19', 'C13'], 'text-index-category',
                'forall(k, 0, len(result), result[k].text == text.Q[k].text and result[k].position == k and '
-               'result[k].cat == catc(text.Q[k].text))')],
+               'result[k].cat == catc(text.Q[k].text))'),
+             # which characters the tokenizer may drop is fixed by the property, not by the table
+             P(['C19'], 'only-NUL-and-DEL-are-ignorable',
+               'forall(k, 0, len(result), implies(result[k].cat == CC.Ignored or result[k].cat == CC.Invalid, '
+               'result[k].text == "\\x00" or result[k].text == "\\x7f"))')],
     loops={0: Loop(invariant=[A('inv', 'inv(text)'), A('cursor', 'text.i == _k and text.m == _k'),
                               A('count', 'len(_out) == _k'), A('bound', '_k <= len(text.Q)'),
                               A('yielded', 'forall(j, 0, _k, _out[j].text == text.Q[j].text and '
